@@ -26,6 +26,7 @@ pub fn worker(eng: &Engine, args: &[String]) -> i32 {
         if ctx.out_of_time() {
             break;
         }
+        ctx.harness_phase(run);
         let plan = (def.generate)(seed, run, tier);
         let mut trials = Trials { ctx: Some(&ctx), run, first: ctx.first_trial(run), next: 0 };
         let rep = (def.exec)(&plan, &mut trials);
